@@ -18,6 +18,7 @@ from fimmc.engine import Model, bfs, explore_cases
 from fimmc import sched as S
 
 LEVEL = 'model_checking'
+BOUND3_LIMIT = 150000          # estimated executions above which a harness stays at two preemptions in the thorough tier
 
 
 # =================================================================================================
@@ -305,13 +306,17 @@ def _inner(cls):
     raise AssertionError('inner store class not found')
 
 
-def code_objects(flavour):
+def code_objects(flavour, scenario=''):
     inner = _inner(NetworkXGraphStorage if flavour == 'shared' else NetworkXGraphStorageDisjoint)
     codes = [f.__code__ for n, f in inner.__dict__.items() if callable(f) and hasattr(f, '__code__') and n != '__init__']
     codes.append(NetworkXPropertyGraph.add_node.__code__)
-    # the constructors of the store and of its singleton shell run concurrently only in the first-use harnesses
-    outer = NetworkXGraphStorage if flavour == 'shared' else NetworkXGraphStorageDisjoint
-    codes += [inner.__init__.__code__, outer.__init__.__code__]
+    # the constructors of the store and of its singleton shell matter only where no store exists yet (every handle and
+    # importer construction passes through the shell: as scheduling-point code it would multiply every other harness)
+    if scenario.startswith('first-use'):
+        outer = NetworkXGraphStorage if flavour == 'shared' else NetworkXGraphStorageDisjoint
+        codes += [inner.__init__.__code__, outer.__init__.__code__]
+    if 'extract' not in scenario:
+        return codes
     # a whole-graph copy made by a store method OUTSIDE its critical section is not one step: networkx walks the node and
     # adjacency dictionaries in Python, and another thread may be scheduled in between
     def nested(co):
@@ -567,7 +572,7 @@ def eval_schedules(case):
     flavour, scenario, bound = case[:3]
     h = Harness(flavour, scenario)
     seq = h.sequential_outcomes()
-    sc = S.Scheduler(code_objects(flavour))
+    sc = S.Scheduler(code_objects(flavour, scenario))
     sc.install()
     try:
         if len(case) > 3:
@@ -584,7 +589,18 @@ def eval_schedules(case):
             obs.append((list(x.choices), x.npoints, ctx.get('outcome_key')))
         if obs[0] != obs[1]:
             raise RuntimeError(f'scheduler nondeterminism: the default schedule gave {obs[0]} then {obs[1]}')
-        stats = S.explore(sc, lambda: h.make_bodies(sc), h.check, bound)
+        stats = S.explore(sc, lambda: h.make_bodies(sc), h.check, min(bound, 2))
+        if bound > 2:
+            # thorough: one more preemption where that is affordable (estimate from the completed bound: executions grow
+            # by about a third of the branch points per extra preemption); the completed bound is reported
+            est = stats['executions'] * stats['max_branch_points'] / 3
+            if est <= BOUND3_LIMIT:
+                stats = S.explore(sc, lambda: h.make_bodies(sc), h.check, bound)
+                stats['bound_completed'] = bound
+            else:
+                stats['bound_completed'] = 2
+        else:
+            stats['bound_completed'] = min(bound, 2)
         # ... and one explored non-default schedule replayed must reproduce its recorded branch structure
         if stats.get('last_schedule') is not None:
             bodies, ctx = h.make_bodies(sc)
@@ -614,7 +630,7 @@ def eval_schedules(case):
             'stats': dict(executions=stats['executions'], distinct_outcomes=len(stats['outcomes']),
                           sequential_outcomes=len(seq), deadlocks=stats['deadlocks'],
                           max_branch_points=stats['max_branch_points'], max_steps=stats['max_steps'],
-                          violating_schedules=len(stats['violations'])),
+                          violating_schedules=len(stats['violations']), bound_completed=stats.get('bound_completed', bound)),
             'first_schedules': first}
 
 
@@ -661,9 +677,9 @@ def run(report):
     stats = {}
     for label, n in list(g['outcomes'].items()):
         if label.startswith('STAT|'):
-            _, fl, s, ex, do, so, dl, bp = label.split('|')
+            _, fl, s, ex, do, so, dl, bp, bc = label.split('|')
             stats[f'{fl}/{s}'] = dict(executions=int(ex), distinct_outcomes=int(do), sequential_outcomes=int(so),
-                                      deadlocks=int(dl), max_branch_points=int(bp))
+                                      deadlocks=int(dl), max_branch_points=int(bp), preemption_bound_completed=int(bc))
             total_exec += int(ex)
             if int(do) >= 2:
                 multi += 1
@@ -671,7 +687,7 @@ def run(report):
     g['states'] = len(stats)
     g['transitions'] = total_exec
     g['schedules_explored'] = total_exec
-    g['preemption_bound'] = {s: bound_of(s) for s in scen}
+    g['preemption_bound'] = {k: v['preemption_bound_completed'] for k, v in stats.items()}
     g['per_harness'] = stats
     g['outcomes'] = {k: v for k, v in g['outcomes'].items() if not k.startswith('STAT|')}
     report.require(multi >= 2, 'at least two harnesses produced two or more distinct outcomes (threads really interleaved)')
@@ -701,5 +717,5 @@ def _eval_and_pack(case):
     if 'stats' in r:
         s = r['stats']
         r['out'] = (f"STAT|{case[0]}|{case[1]}|{s['executions']}|{s['distinct_outcomes']}|{s['sequential_outcomes']}|"
-                    f"{s['deadlocks']}|{s['max_branch_points']}")
+                    f"{s['deadlocks']}|{s['max_branch_points']}|{s.get('bound_completed', case[2])}")
     return r
